@@ -245,9 +245,9 @@ theorem eval_arith (fuel : Nat) (ctx : Ctx) (a b : Expr) (x y : Int)
 
 theorem eval_evalArgs_fuel_mono (f : Nat) :
     (∀ (ctx : Ctx) (e : Expr) (r : Except EvErr Int),
-      eval f ctx e = r → r ≠ .error (.recursionLimit "fuel") → eval (f + 1) ctx e = r) ∧
+      eval f ctx e = r → r ≠ .error (.recursionLimit evalFuelMark) → eval (f + 1) ctx e = r) ∧
     (∀ (ctx : Ctx) (ps : List String) (as : Exprs) (r : Except EvErr (List (String × Int))),
-      evalArgs f ctx ps as = r → r ≠ .error (.recursionLimit "fuel") → evalArgs (f + 1) ctx ps as = r) := by
+      evalArgs f ctx ps as = r → r ≠ .error (.recursionLimit evalFuelMark) → evalArgs (f + 1) ctx ps as = r) := by
   induction f with
   | zero =>
     constructor
@@ -261,7 +261,7 @@ theorem eval_evalArgs_fuel_mono (f : Nat) :
           | .error e => .error e
           | .ok x => match eval f ctx b with
             | .error e => .error e
-            | .ok y => g x y) = r → r ≠ .error (.recursionLimit "fuel") →
+            | .ok y => g x y) = r → r ≠ .error (.recursionLimit evalFuelMark) →
         (match eval (f + 1) ctx a with
           | .error e => .error e
           | .ok x => match eval (f + 1) ctx b with
@@ -340,7 +340,7 @@ theorem eval_evalArgs_fuel_mono (f : Nat) :
 
 /-- more fuel never changes a result that was not a fuel exhaustion -/
 theorem eval_fuel_mono (f : Nat) (ctx : Ctx) (e : Expr) (r : Except EvErr Int)
-    (h : eval f ctx e = r) (hr : r ≠ .error (.recursionLimit "fuel")) : eval (f + 1) ctx e = r :=
+    (h : eval f ctx e = r) (hr : r ≠ .error (.recursionLimit evalFuelMark)) : eval (f + 1) ctx e = r :=
   (eval_evalArgs_fuel_mono f).1 ctx e r h hr
 
 /-! ### expression macros (T-subst, C11) -/
